@@ -156,15 +156,19 @@ PROPS["C19"] = {
 PROPS["C10"] = {
     "modules": ["contracts.ops_mk"],
     "contracts": ["hdc/algo/ops/stats.py::mk_score", "hdc/algo/ops/stats.py::mk_z_score", "hdc/algo/ops/stats.py::mk_p_value",
+                  "ghost:contracts/ghost_stats.py::tiesum_zero", "hdc/algo/ops/stats.py::mk_variance_s",
+                  "ghost:contracts/ghost_stats.py::pb_mono", "hdc/algo/ops/stats.py::mk_sens_slope",
                   "hdc/algo/ops/stats.py::mann_kendall_trend_1d", "hdc/algo/ops/stats.py::_mann_kendall_trend_gu_nd"],
     "standin": True,
     "level": "proof",
-    "trusted": ["z3 5.1 / cvc5 1.0.3", "erf / ndtri / sqrt uninterpreted", "mk_variance_s and mk_sens_slope are used through call-site contracts only (tie-corrected variance, median of pairwise slopes: bounded stand-in; their index safety is discharged in C14)"],
-    "not_proved": ["tie-corrected variance formula, Sen's slope as the median of all pairwise slopes, the symmetries (monotone transforms, negation, reversal) and h <=> p < 0.05: exhaustive bounded stand-in over all rank patterns up to length 6 (7 thorough), as the property's quantifier asks"],
+    "trusted": ["z3 5.1 / cvc5 1.0.3", "erf / ndtri / sqrt uninterpreted",
+                "numpy.unique: library contract assumed (distinct values of the input; when it returns as many values as the input has cells each value occurs exactly once)",
+                "numpy.nanmedian: uninterpreted order statistic of the array it is given (that it is the median is NumPy's contract)"],
+    "not_proved": ["the symmetries (monotone transforms, negation, reversal) and h <=> p < 0.05 are consequences of the proved formulas that are not themselves stated as lemmas: exhaustive bounded stand-in over all rank patterns up to length 6 (7 thorough), as the property's quantifier asks"],
     "assumptions": ["integers mathematical; floats exact reals (model R)"],
-    "level_text": "mk_score: S equals the double sum of signs and tau = S / (n(n-1)/2) for all series (nested loop invariants over spec sums); mk_z_score / mk_p_value: the continuity correction and the two-sided normal p / significance formula of the statement are evaluated with the right operands; mann_kendall_trend_1d: tau, p, slope are passed through and the flag is sign(Z) when significant, else 0; all-nodata pixels yield nodata and flag -2. Variance, Sen slope and the symmetries are decided by the exhaustive bounded stand-in",
-    "level_note": "trusted: z3/cvc5; special functions uninterpreted; tie variance / Sen slope / symmetries only bounded (exhaustive over rank patterns); Numba faithful (C13)",
-    "explanation": "nested loop invariants over mk_inner / mk_S spec functions; branch-wise postconditions",
+    "level_text": "for all series: mk_score: S equals the double sum of signs and tau = S / (n(n-1)/2) (nested loop invariants over spec sums); mk_variance_s: the result is (n(n-1)(2n+5) - sum over the distinct values of t(t-1)(2t+5)) / 18 with t the multiplicity of the value (both the untied shortcut and the general path); mk_sens_slope: every pairwise slope (x[j]-x[i])/(j-i), i<j, is stored in its own cell of d (rows of the pair enumeration do not overlap, lemma pb_mono), all cells are used, the slope is nanmedian(d) and the intercept nanmedian(x) - (n-1)/2 * slope; mk_z_score / mk_p_value: the continuity correction and the two-sided normal p / significance formula of the statement are evaluated with the right operands; mann_kendall_trend_1d: tau, p, slope are passed through and the flag is sign(Z) when significant, else 0; all-nodata pixels yield nodata and flag -2. The symmetries are decided by the exhaustive bounded stand-in",
+    "level_note": "trusted: z3/cvc5; special functions, np.unique and np.nanmedian by their library contracts; symmetries only bounded (exhaustive over rank patterns); Numba faithful (C13)",
+    "explanation": "nested loop invariants over mk_inner / mk_S / tiesum / pairs_before spec functions; branch-wise postconditions",
 }
 
 PROPS["C08"] = {
@@ -233,20 +237,25 @@ PROPS["C02"] = {
 }
 
 PROPS["C04"] = {
-    "modules": ["contracts.c14"],
+    "modules": ["contracts.c14", "contracts.sel_vcurve"],
     "contracts": ["hdc/algo/ops/ws2doptv.py::ws2doptv@idx", "hdc/algo/ops/ws2doptvp.py::ws2doptvp@idx", "hdc/algo/ops/ws2doptvp.py::_ws2doptvp@idx",
                   "hdc/algo/ops/ws2doptvplc.py::ws2doptvplc@idx", "hdc/algo/ops/ws2doptvplc.py::ws2doptvplc@idx_low", "hdc/algo/ops/ws2doptvplc.py::ws2doptvplc@idx_sym",
-                  "hdc/algo/ops/ws2doptvplc.py::ws2doptvplc_tyx@idx"],
+                  "hdc/algo/ops/ws2doptvplc.py::ws2doptvplc_tyx@idx",
+                  "hdc/algo/ops/ws2doptv.py::ws2doptv@sel", "hdc/algo/ops/ws2doptvp.py::ws2doptvp@sel", "hdc/algo/ops/ws2doptvp.py::_ws2doptvp@sel",
+                  "hdc/algo/ops/ws2doptvplc.py::ws2doptvplc@sel"],
     "standin": True,
     "level": "other",
-    "trusted": ["the core solver (C01) is used by the stand-in's independent V-curve recomputation"],
-    "not_proved": ["optimality of the selected grid cell, midpoint form of lopt, band == fixed-lambda smoother at lopt, grid choice from lc, sgrid = log10(lopt) float32: bounded stand-in only (independent numpy recomputation of the V-curve)",
-                   "the deductive part covers index safety, every output cell (band and lopt) written, and the argmin cursor staying on the grid (0 <= k < nl-1) for all inputs"],
-    "assumptions": [],
-    "level_text": "mixed, mostly bounded: deductively (for all inputs) the V-curve kernels stay inside their arrays, write every band cell and lopt on every path and keep the argmin cursor on the grid; the optimality / midpoint / self-consistency / grid-choice clauses are decided by a bounded stand-in that recomputes the V-curve independently and compares the band with the fixed-lambda smoother at the reported lambda (labelled bounded)",
-    "level_note": "index/written obligations proved; value clauses bounded only; Numba faithful (C13)",
-    "technique": "contract-based deductive verification of index/written/cursor obligations + bounded run-time evaluation of the selection contract against an independent V-curve recomputation",
-    "explanation": "functional contracts of the selection loops (spec functions for F, P, V over uninterpreted log/sqrt/pow) are not built; see DESIGN.md",
+    "trusted": ["selection contracts (variant sel, model R): pow / log / sqrt are uninterpreted functions, so 'minimal' is minimality of the real-valued V-curve expression; floating-point ties are outside the deductive part (the stand-in applies the tie rule)",
+                "the core solver enters through the call-site contract ws2d@fn (its result is named WSI(y, lmda, w, n, i), a deterministic function of the arguments); that WSI solves the penalised least-squares system is C01",
+                "the core solver (C01) is used by the stand-in's independent V-curve recomputation"],
+    "not_proved": ["'the band is exactly what the fixed-lambda smoother returns at the reported lambda' is proved in the form band == round(ws2d(y, lopt, validity weights)) (ws2doptv) and band == round(last envelope reweighting step at lopt) (asymmetric kernels, the form of ws2dpgu's contract, C03); that ws2dgu / ws2dpgu called with lopt return the same array additionally needs (a) ws2d to depend on y only through w*y (C01 normal equations + uniqueness of their solution, assumed) and (b) the same number of envelope iterations in both kernels: compared by the bounded stand-in only",
+                   "sgrid = log10(lopt) as float32 and the per-pixel grid choice of the 3-d driver ws2doptvplc_tyx are accessor / driver level: bounded stand-in only",
+                   "asymmetric kernels: the (log fit, log roughness) points are those of the curve the warm-started envelope iteration holds at each grid cell (proved as in-loop assertions fit_is_log_wsse / pen_is_log_roughness); that this iteration has converged is not claimed by the statement and not proved"],
+    "assumptions": ["integer-valued input cells (int16 data) for the pass-through clause", "lc is not NaN in model R (the NaN grid is the recorded known finding)"],
+    "level_text": "mixed, mostly deductive: for all inputs (model R, special functions uninterpreted) the four V-curve kernels ws2doptv, ws2doptvp, _ws2doptvp, ws2doptvplc satisfy functional contracts discharged from their real ASTs: validity weights are 1 - (y == nodata); fits[l] / pens[l] are the logs of the weighted squared residuals and squared second differences of the fitted curve at grid cell l; v is the V-curve of these points per unit log10 lambda; the selected k is its first strict minimum on the grid (v[k] <= v[j] for all j, < for j < k); lopt == 10**((llas[k] + llas[k+1]) / 2); the band is the rounding of the Whittaker curve at lopt (asymmetric: of the last envelope reweighting step at lopt); pixels with fewer than 2 valid cells are passed through with lopt 0; ws2doptvplc searches -2..1.0 (step 0.2) where lc > 0.5 and 0..3.0 elsewhere. Index safety and written-ness as in C14. Float ties, equality with the separately compiled fixed-lambda kernels, sgrid and the 3-d driver are decided by the bounded stand-in (independent numpy recomputation of the V-curve)",
+    "level_note": "selection (argmin / midpoint / V-curve formula / band / grid choice) proved for the four kernels in real arithmetic; float ties, cross-kernel equality, sgrid, 3-d driver bounded only; Numba faithful (C13)",
+    "technique": "contract-based deductive verification (functional postconditions with loop invariants over spec sums; index/written obligations) + bounded run-time evaluation of the selection contract against an independent V-curve recomputation",
+    "explanation": "functional contracts of the selection loops are discharged for all inputs; clauses that need floating-point tie handling or two separately compiled kernels are bounded",
 }
 
 PROPS["C05"] = {
